@@ -9,7 +9,11 @@ import GcArena.Model.Driver
   upgrades, downgrades).  That is what safe Rust enforces — a pointer can only be obtained by
   allocating it or reading it from something already held, and the brand keeps pointers of
   earlier callbacks and of other arenas out (C12) — so the operand guards exclude nothing a
-  client can do.  A guarded-out op returns the state unchanged with output `bad-op`.
+  client can do, with one exception: there is one active callback per arena, so *nested*
+  `mutate` calls on the same arena (legal: `mutate` takes `&self`) are not representable — an
+  inner callback can do nothing the outer one cannot, but its pointers outliving it inside the
+  outer callback is not expressed.  A guarded-out op returns the state unchanged with output
+  `bad-op`.
 
   `cover` is ghost state: the barriers issued since the last collection call, which license
   later barrier-less (`raw`) stores — the premise "interior mutation preceded by a barrier" of
